@@ -224,7 +224,8 @@ def run_check(prop, modname, tier="quick", seed=0, procs=None, level="proof", as
             seen_kf.add(kf["tag"])
             lines.append("KNOWN-FINDING: property=%s %s [%s] (%s)" % (prop, kf["what"], kf["tag"], oid))
     vio_lines = []
-    for oid, ob, rep, native in violations:
+    violations.sort(key=lambda v: (not v[3], v[0]))
+    for oid, ob, rep, native in violations[:60]:
         h = hashlib.sha1(oid.encode()).hexdigest()[:10]
         path = os.path.join(ROOT, "replays", "%s-%s.json" % (prop, h))
         json.dump({"property": prop, "obligation": oid, "solver": "z3", "model": ob.get("model"), "replay": rep,
@@ -247,6 +248,7 @@ def run_check(prop, modname, tier="quick", seed=0, procs=None, level="proof", as
             "solver_checks": sum(o.get("checks", 0) for o in outs),
             "undecided": [list(u) for u in undecided[:20]],
             "known_findings_reported": sorted(seen_kf),
+            "violated": [v[0] for v in violations][:200],
             "vacuity": vac,
             "samples": samples,
             "evaluations": max(1, n_obl + n_b), "distinct_nontrivial": max(2, n_dis + n_b),
@@ -266,8 +268,10 @@ def run_check(prop, modname, tier="quick", seed=0, procs=None, level="proof", as
             print("CHECKER-ERROR", e[0], str(e[1])[:1500])
     for u in undecided[:15]:
         print("UNDECIDED", u[0], str(u[1])[:400])
-    for l in vio_lines:
+    for l in vio_lines[:12]:
         print(l)
+    if len(vio_lines) > 12:
+        print("... and %d more violated obligations (all listed in evidence/%s.json under coverage.violated)" % (len(vio_lines) - 12, prop))
     if vio_lines:
         return 1
     if errors:
@@ -279,7 +283,8 @@ def run_check(prop, modname, tier="quick", seed=0, procs=None, level="proof", as
 
 def _match_known(known, oid, ob):
     for k in known:
-        if oid.startswith(k["obligation"]) or k["obligation"] in oid:
+        pats = k["obligation"] if isinstance(k["obligation"], list) else [k["obligation"]]
+        if all(p in oid for p in pats):
             w = k.get("witness")
             if not w:
                 return k
